@@ -22,6 +22,12 @@ def answer (cfg : Cfg) (s : St) (ws : List String) : Cfg × St × String :=
   | ["dropent", p, e] => match p.toNat? with
     | some p => (cfg, dropEntity cfg s p (parseEnt e), "done")
     | none => (cfg, s, "bad-op")
+  | ["subspass", p, e] => match p.toNat? with
+    | some p => (cfg, subsPass s p (parseEnt e), "done")
+    | none => (cfg, s, "bad-op")
+  | ["bindspass", p, e] => match p.toNat? with
+    | some p => (cfg, bindsPass cfg s p (parseEnt e), "done")
+    | none => (cfg, s, "bad-op")
   | ["subs", p] => match p.toNat? with
     | some p => (cfg, s, showL (subsOf s p))
     | none => (cfg, s, "bad-op")
@@ -51,12 +57,20 @@ def answer (cfg : Cfg) (s : St) (ws : List String) : Cfg × St × String :=
     | _ => (cfg, s, "bad-op")
   | ["reset"] => (cfg, init, "reset")
   | _ => (cfg, s, "bad-op")
-partial def loop (h : IO.FS.Stream) (out : IO.FS.Stream) (cfg : Cfg) (s : St) : IO Unit := do
+/-- `save` / `restore`: one slot for the state, so that the harness can ask for both orders of two operations -/
+partial def loop (h : IO.FS.Stream) (out : IO.FS.Stream) (cfg : Cfg) (s saved : St) : IO Unit := do
   let line ← h.getLine
   if line.isEmpty then out.flush; return ()
-  let ws := (line.trimAscii.toString.splitOn " ").filter (· ≠ "")
-  let (cfg', s', ans) := answer cfg s ws
-  out.putStrLn ans
-  out.flush
-  loop h out cfg' s'
-def main : IO Unit := do loop (← IO.getStdin) (← IO.getStdout) {} init
+  let ws := stripDecor ((line.trimAscii.toString.splitOn " ").filter (· ≠ ""))
+  if ws == ["save"] then
+    out.putStrLn "saved"; out.flush
+    loop h out cfg s s
+  else if ws == ["restore"] then
+    out.putStrLn "restored"; out.flush
+    loop h out cfg saved saved
+  else
+    let (cfg', s', ans) := answer cfg s ws
+    out.putStrLn ans
+    out.flush
+    loop h out cfg' s' saved
+def main : IO Unit := do loop (← IO.getStdin) (← IO.getStdout) {} init init
